@@ -942,4 +942,202 @@ theorem edgeParam_flip (eps : K) (o n a b : V3 K) (h : offset o n a ≠ offset o
   congr 1
   rw [← neg_sub', neg_div_neg_eq]
 
+
+theorem T3.get_congr {α : Type} (t : T3 α) (i j : Nat) (h : i % 3 = j % 3) : t.get i = t.get j := by
+  unfold T3.get; rw [h]
+
+/-- how the classification of a face relates to its classification under the flipped plane (all signs negated) -/
+def FlipTable (s : T3 Int) : Prop :=
+  match classifyFace s true, classifyFace (s.map fun x => -x) true with
+  | .keep, .keep => s.a = 0 ∧ s.b = 0 ∧ s.c = 0
+  | .keep, .drop => s.a = -1 ∨ s.b = -1 ∨ s.c = -1
+  | .drop, .keep => s.a = 1 ∨ s.b = 1 ∨ s.c = 1
+  | .quad k, .tri k' => k' = k ∧ k < 3
+  | .tri k, .quad k' => k' = k ∧ k < 3
+  | .tri k, .tri k' => k < 3 ∧ ((s.get (k + 1) = 0 ∧ s.get (k + 2) = 1 ∧ k' % 3 = (k + 2) % 3) ∨
+                               (s.get (k + 1) = 1 ∧ s.get (k + 2) = 0 ∧ k' % 3 = (k + 1) % 3))
+  | _, _ => False
+
+instance (s : T3 Int) : Decidable (FlipTable s) := by
+  unfold FlipTable; split <;> infer_instance
+
+theorem flip_table_signs :
+    ∀ a ∈ [(-1 : Int), 0, 1], ∀ b ∈ [(-1 : Int), 0, 1], ∀ c ∈ [(-1 : Int), 0, 1], FlipTable ⟨a, b, c⟩ := by
+  decide
+
+theorem vsign_neg (tol : K) (ht : 0 ≤ tol) (d : K) (hd : d = 0 ∨ tol < d ∨ d < -tol) :
+    vsign tol (-d) = - vsign tol d := by
+  unfold vsign
+  rcases hd with h | h | h
+  · subst h
+    have h1 : ¬ tol < (0 : K) := not_lt.mpr ht
+    have h2 : ¬ (0 : K) < -tol := by intro h'; linarith
+    simp only [neg_zero, h1, h2, if_false]
+  · have h1 : ¬ tol < -d := by intro h'; linarith
+    have h2 : -d < -tol := by linarith
+    rw [if_neg h1, if_pos h2, if_pos h]; decide
+  · have h1 : tol < -d := by linarith
+    have h2 : ¬ tol < d := by intro h'; linarith
+    rw [if_pos h1, if_neg h2, if_pos h]
+
+/-- **complementarity** (per face, on-plane corners exactly on the plane): the fraction of a selected face kept in
+    front of the plane plus the fraction kept behind the flipped plane is 1 — or 2 when the face lies in the plane
+    and is kept by both.  With `lamOf_is_area_fraction` and `C01_orientation` (every piece is a non-negative multiple
+    of the face's area vector): area in front + area behind = area of the face (+ it again for in-plane faces). -/
+theorem C02_complementary (tol eps : K) (ht : 0 ≤ tol) (o n : V3 K) (p : T3 (V3 K))
+    (hex : ∀ i, offset o n (p.get i) = 0 ∨ tol < offset o n (p.get i) ∨ offset o n (p.get i) < -tol) :
+    lamOf tol eps o n p true + lamOf tol eps o (-n) p true =
+      if offset o n p.a = 0 ∧ offset o n p.b = 0 ∧ offset o n p.c = 0 then 2 else 1 := by
+  -- the two sign triples
+  have hgetA : p.get 0 = p.a := rfl
+  have hgetB : p.get 1 = p.b := rfl
+  have hgetC : p.get 2 = p.c := rfl
+  have ea := hex 0; rw [hgetA] at ea
+  have eb := hex 1; rw [hgetB] at eb
+  have ec := hex 2; rw [hgetC] at ec
+  set s : T3 Int := p.map fun v => vsign tol (offset o n v) with hs
+  have hback : (p.map fun v => vsign tol (offset o (-n) v)) = s.map fun x => -x := by
+    simp only [hs, T3.map, offset_neg]
+    rw [vsign_neg tol ht _ ea, vsign_neg tol ht _ eb, vsign_neg tol ht _ ec]
+  have mem : ∀ x : K, vsign tol x ∈ [(-1 : Int), 0, 1] := by
+    intro x; rcases vsign_mem tol x with h | h | h <;> simp [h]
+  have tbl : FlipTable s := flip_table_signs _ (mem _) _ (mem _) _ (mem _)
+  have hk1 := PW.C01.kind_offsets tol ht o n p true
+  have hk2 := PW.C01.kind_offsets tol ht o (-n) p true
+  simp only at hk1 hk2
+  -- zero offsets ↔ zero signs
+  have zero_iff : ∀ v, (offset o n v = 0 ∨ tol < offset o n v ∨ offset o n v < -tol) →
+      (vsign tol (offset o n v) = 0 ↔ offset o n v = 0) := by
+    intro v hv
+    rw [vsign_on_iff ht]
+    constructor
+    · rintro ⟨h1, h2⟩
+      rcases hv with h | h | h
+      · exact h
+      · exfalso; linarith
+      · exfalso; linarith
+    · intro h; rw [h]; exact ⟨by linarith, ht⟩
+  unfold lamOf
+  rw [hback]
+  rw [hback] at hk2
+  unfold FlipTable at tbl
+  -- abbreviations for the flipped offsets
+  have flipP : ∀ a b, offset o n a ≠ offset o n b → edgeParam eps o (-n) a b = edgeParam eps o n a b :=
+    fun a b h => edgeParam_flip eps o n a b h
+  cases h1 : classifyFace s true with
+  | keep =>
+    cases h2 : classifyFace (s.map fun x => -x) true with
+    | keep =>
+      rw [h1, h2] at tbl
+      obtain ⟨za, zb, zc⟩ := tbl
+      have : offset o n p.a = 0 ∧ offset o n p.b = 0 ∧ offset o n p.c = 0 :=
+        ⟨(zero_iff _ ea).mp za, (zero_iff _ eb).mp zb, (zero_iff _ ec).mp zc⟩
+      simp only [this, and_self, if_true]; norm_num
+    | drop =>
+      rw [h1, h2] at tbl
+      have : ¬ (offset o n p.a = 0 ∧ offset o n p.b = 0 ∧ offset o n p.c = 0) := by
+        rintro ⟨za, zb, zc⟩
+        rcases tbl with h | h | h
+        · have := (vsign_front_iff tol _).mp h; linarith
+        · have := (vsign_front_iff tol _).mp h; linarith
+        · have := (vsign_front_iff tol _).mp h; linarith
+      simp only [this, if_false]; norm_num
+    | quad k => rw [h1, h2] at tbl; exact tbl.elim
+    | tri k => rw [h1, h2] at tbl; exact tbl.elim
+  | drop =>
+    cases h2 : classifyFace (s.map fun x => -x) true with
+    | keep =>
+      rw [h1, h2] at tbl
+      have : ¬ (offset o n p.a = 0 ∧ offset o n p.b = 0 ∧ offset o n p.c = 0) := by
+        rintro ⟨za, zb, zc⟩
+        rcases tbl with h | h | h
+        · have := (vsign_behind_iff ht _).mp h; linarith
+        · have := (vsign_behind_iff ht _).mp h; linarith
+        · have := (vsign_behind_iff ht _).mp h; linarith
+      simp only [this, if_false]; norm_num
+    | drop => rw [h1, h2] at tbl; exact tbl.elim
+    | quad k => rw [h1, h2] at tbl; exact tbl.elim
+    | tri k => rw [h1, h2] at tbl; exact tbl.elim
+  | quad k =>
+    rw [h1] at hk1
+    obtain ⟨hA, hB, hC⟩ := hk1
+    have nz : ¬ (offset o n p.a = 0 ∧ offset o n p.b = 0 ∧ offset o n p.c = 0) := by
+      rintro ⟨za, zb, zc⟩
+      rcases T3.get_cases p k with ⟨_, e, _, _⟩ | ⟨_, e, _, _⟩ | ⟨_, e, _, _⟩ <;> rw [e] at hA <;> linarith
+    cases h2 : classifyFace (s.map fun x => -x) true with
+    | tri k' =>
+      rw [h1, h2] at tbl
+      obtain ⟨rfl, _⟩ := tbl
+      simp only [nz, if_false]
+      rw [flipP (p.get k') (p.get (k' + 1)) (by intro h; linarith),
+        flipP (p.get (k' + 2)) (p.get k') (by intro h; linarith)]
+      ring
+    | keep => rw [h1, h2] at tbl; exact tbl.elim
+    | drop => rw [h1, h2] at tbl; exact tbl.elim
+    | quad k' => rw [h1, h2] at tbl; exact tbl.elim
+  | tri k =>
+    rw [h1] at hk1
+    obtain ⟨hA, hB, hC⟩ := hk1
+    have hA0 : 0 < offset o n (p.get k) := lt_of_le_of_lt ht hA
+    have nz : ¬ (offset o n p.a = 0 ∧ offset o n p.b = 0 ∧ offset o n p.c = 0) := by
+      rintro ⟨za, zb, zc⟩
+      rcases T3.get_cases p k with ⟨_, e, _, _⟩ | ⟨_, e, _, _⟩ | ⟨_, e, _, _⟩ <;> rw [e] at hA0 <;> linarith
+    simp only [nz, if_false]
+    cases h2 : classifyFace (s.map fun x => -x) true with
+    | quad k' =>
+      rw [h1, h2] at tbl
+      obtain ⟨rfl, _⟩ := tbl
+      dsimp only
+      rw [flipP (p.get (k' + 2)) (p.get k') (by intro h; linarith),
+        flipP (p.get k') (p.get (k' + 1)) (by intro h; linarith)]
+      ring
+    | tri k' =>
+      rw [h1, h2] at tbl
+      obtain ⟨_, hcase⟩ := tbl
+      rcases hcase with ⟨sB, sC, hk'⟩ | ⟨sB, sC, hk'⟩
+      · -- B on the plane, C behind; the back triangle is fanned from C (column k+2)
+        rw [hs, T3.get_map] at sB sC
+        have dB : offset o n (p.get (k + 1)) = 0 := (zero_iff _ (hex (k + 1))).mp sB
+        have dC : offset o n (p.get (k + 2)) < -tol := (vsign_behind_iff ht _).mp sC
+        have g0 : p.get k' = p.get (k + 2) := T3.get_congr p _ _ hk'
+        have g1 : p.get (k' + 1) = p.get k := T3.get_congr p _ _ (by omega)
+        have g2 : p.get (k' + 2) = p.get (k + 1) := T3.get_congr p _ _ (by omega)
+        dsimp only
+        rw [g0, g1, g2]
+        -- front: u = 1, t crosses; back: first parameter = t, second = 0
+        have u1 : edgeParam eps o n (p.get k) (p.get (k + 1)) = 1 := by
+          rw [edgeParam_of_ne eps o n _ _ (by rw [dB]; exact ne_of_gt hA0), dB, sub_zero,
+            div_self (ne_of_gt hA0)]
+          exact clip01_of_ge_one (le_refl 1)
+        have b2 : edgeParam eps o (-n) (p.get (k + 1)) (p.get (k + 2)) = 0 := by
+          rw [edgeParam_of_ne eps o (-n) _ _ (by rw [offset_neg, offset_neg, dB]; intro h; linarith),
+            offset_neg, offset_neg, dB]
+          simp only [neg_zero, zero_sub, neg_neg, zero_div]
+          exact clip01_of_nonpos (le_refl 0)
+        rw [u1, b2, flipP (p.get (k + 2)) (p.get k) (by intro h; linarith)]
+        ring
+      · -- B behind, C on the plane; the back triangle is fanned from B (column k+1)
+        rw [hs, T3.get_map] at sB sC
+        have dB : offset o n (p.get (k + 1)) < -tol := (vsign_behind_iff ht _).mp sB
+        have dC : offset o n (p.get (k + 2)) = 0 := (zero_iff _ (hex (k + 2))).mp sC
+        have g0 : p.get k' = p.get (k + 1) := T3.get_congr p _ _ hk'
+        have g1 : p.get (k' + 1) = p.get (k + 2) := T3.get_congr p _ _ (by omega)
+        have g2 : p.get (k' + 2) = p.get k := T3.get_congr p _ _ (by omega)
+        dsimp only
+        rw [g0, g1, g2]
+        have t0 : edgeParam eps o n (p.get (k + 2)) (p.get k) = 0 := by
+          rw [edgeParam_of_ne eps o n _ _ (by rw [dC]; exact ne_of_lt hA0), dC]
+          simp only [zero_sub, zero_div]
+          exact clip01_of_nonpos (le_refl 0)
+        have b1 : edgeParam eps o (-n) (p.get (k + 1)) (p.get (k + 2)) = 1 := by
+          rw [edgeParam_of_ne eps o (-n) _ _ (by rw [offset_neg, offset_neg, dC]; intro h; linarith),
+            offset_neg, offset_neg, dC]
+          simp only [neg_zero, sub_zero]
+          rw [div_self (by intro h; linarith)]
+          exact clip01_of_ge_one (le_refl 1)
+        rw [t0, b1, flipP (p.get k) (p.get (k + 1)) (by intro h; linarith)]
+        ring
+    | keep => rw [h1, h2] at tbl; exact tbl.elim
+    | drop => rw [h1, h2] at tbl; exact tbl.elim
+
 end PW.C02
